@@ -269,6 +269,7 @@ fn dispatch_search(cmd: &str, args: &[String], tier: &String, seed: u64, out: &S
         "c02-path" => posprops::replay_path(Which::C02, &arg(&args, "--moves").unwrap_or_default()),
         "c17-path" => posprops::replay_path(Which::C17, &arg(&args, "--moves").unwrap_or_default()),
         "c01-one" => posprops::replay_one(Which::C01, &arg(&args, "--fen").unwrap()),
+        "c02-search-one" => posprops::replay_search_one(&arg(&args, "--fen").unwrap(), arg(&args, "--depth").and_then(|c| c.parse().ok()).unwrap_or(3), arg(&args, "--cap").and_then(|c| c.parse().ok()).unwrap_or(4000)),
         "c02-one" => posprops::replay_one(Which::C02, &arg(&args, "--fen").unwrap()),
         "c17-trace-one" => posprops::replay_trace_one(&arg(&args, "--fen").unwrap()),
         "c17-exam-one" => posprops::replay_exam_one(&arg(&args, "--fen").unwrap(), &arg(&args, "--node").unwrap(), arg(&args, "--cap").and_then(|c| c.parse().ok()).unwrap_or(800), arg(&args, "--after-search").and_then(|c| c.parse().ok()).unwrap_or(0)),
